@@ -25,6 +25,7 @@
   exact Gauss–Jordan `MatAlg.solve` (at `Rat`: exact reference; at `Float`: same loop in doubles).
 -/
 import QEModel.MatAlg
+import QEModel.C06
 namespace QE.C07
 open QE QE.MatAlg
 
@@ -721,6 +722,17 @@ def handle (toks : List String) : String :=
     match kvNat r "T", kvNat r "ts" with
     | some T, some ts => toString (horizon T ts)
     | _, _ => "bad-op"
+  | "domain" :: r =>
+    -- the constants of the explicit-rate theorems: kappa = ‖A − BF‖∞ (max absolute row sum), ‖P‖_max, beta*kappa²
+    match kvRatMat r "A", kvRatMat r "B", kvRatMat r "F", kvRatMat r "P", kvRat r "beta" with
+    | some A, some B, some F, some P, some b =>
+      let n := A.length
+      let k := F.length
+      if shape A n n && shape B n k && shape F k n && shape P n n then
+        let kap : Rat := C06.normInf (msub (matOf A) (mmul (matOf B) (matOf F)))
+        s!"kappa={showRat kap} pmax={showRat (maxAbs C06.gabs (matOf P))} bk2={showRat (b * kap ^ 2)}"
+      else "bad-op"
+    | _, _, _, _, _ => "bad-op"
   | "rat" :: r => handleG (parseMat? parseRat?) parseRat? showRatM showApprox r
   | "float" :: r => handleG (parseMat? parseFloat?) parseFloat? showFloatM showFloatBits r
   | _ => "bad-op"
